@@ -1,5 +1,7 @@
 """C11 — reported flows are justified: kernel legs (Engine X): no fabricated taint on every small SFG; the sink tag comes
 only from the rule-designated operand position."""
+import os
+
 from vlib import common, xrun
 from vlib.checks import taint_common as tc
 
@@ -16,8 +18,8 @@ def run(tier):
         "designates nothing and must not raise); a rule of another operation kind contributes nothing",
         "symbol ids and state ids are disjoint; operands of one statement occupy distinct positions",
     ]
-    r.outside += ["program-level justification of reported flows (Engine T leg)",
-                  "*_from_code.yaml rule sets"]
+    r.outside += ["*_from_code.yaml rule sets", "rules of operations other than call_stmt in the program leg",
+                  "multi-file programs in the program leg"]
     b = xrun.Batch(r)
     if tier == "quick":
         b.add("propagate_taint taints <= least fixpoint on every SFG (2 symbols,1 state,1 stmt)", tc.M, "check_propagation",
@@ -34,7 +36,11 @@ def run(tier):
     b.add("get_sink_tag_by_rules: tag only from the designated operand positions", tc.M, "check_sink_positions",
           slices=[dict(t0=[t], op=[0], t1=([-1, 0, 6, 8] if tier == "quick" else None)) for t in range(len(h.TARGETS))]
           + [dict(t0=[0, 6, 7], op=[1], t1=[-1, 0])]
-          + [dict(t0=[t], op=[2], t1=[-1, 0, 1, 5]) for t in (0, 1, 5, 6)],
+          + [dict(t0=[t], op=[2], t1=[-1, 0, 1, 5]) for t in (0, 1, 5, 6)]
+          # rules restricted to a unit / a line: in scope they designate as before, out of scope they designate nothing,
+          # alone or next to an unrestricted rule for the same callee
+          + [dict(t0=[0, 1, 6], op=[0], t1=[-1, 0, 1], scope=sc, split=sp) for sc in (1, 2, 3, 4) for sp in (False, True)]
+          + [dict(t0=[0, 5], op=[2], t1=[-1, 1], scope=sc, split=True) for sc in (2, 4)],
           pct=300 if tier == "quick" else 1500, ppt=30,
           bounds={"operands": "positions 0..2 absent / clean / tainted", "targets": [str(t) for t in h.TARGETS],
                   "targets_per_rule": "1..2", "rule operation": "call_stmt / field_write / object_call (receiver at 0, arguments from 2)"})
@@ -42,13 +48,170 @@ def run(tier):
           "check_propagation", slices=tc.template_slices("sound"), pct=400 if tier == "quick" else 1500, ppt=30,
           bounds=tc.TEMPLATE_BOUNDS)
     b.execute()
+    program_leg(r, tier)
     r.add_sample({"call": "sink(a1, a2)", "rule": {"operation": "call_stmt", "name": "sink", "target": ["\\%arg1"]},
                   "tainted": ["a1"], "expected_sink_tag": 0})
     return r
 
 
+FLOW_TABLES = [("flows", "@taint_flows")]
+# configurations that need not see every program (their known findings are listed per program)
+SUBSET = {"rules_for_another_language": ["t_direct", "t_param"]}
+
+
+def run_config(name, programs):
+    import copy
+    from vlib import progs, tbatch
+    rules = progs.taint_configs()[name][0]
+    P = copy.deepcopy(programs)
+    _, info = tbatch.build_batch(P, cmd="run", tables=FLOW_TABLES, settings_files=progs.taint_settings(rules))
+    return P, info
+
+
+def lines_of(p, flows):
+    by = {x["stmt_id"]: x for x in p["rows"]}
+    return {(int(by[s_]["start_row"]) + 1 if s_ in by else -1, int(by[k]["start_row"]) + 1 if k in by else -1) for s_, k in flows}
+
+
+def flows_of(p):
+    return {(f["source_stmt_id"], f["sink_stmt_id"]) for f in p.get("flows", [])}
+
+
+def problems_of(p, rules):
+    """[(kind, flow, text)] for one analysed program under one rule set"""
+    from vlib import flowdep
+    probs, d = flowdep.judge(p, flows_of(p), rules)
+    out = []
+    for flow, text in probs:
+        kind = "no-source-rule" if "no configured source" in text else "no-sink-rule" if "no configured sink" in text else "no-dependence"
+        out.append((kind, flow, text))
+    return out, d
+
+
+def program_leg(r, tier):
+    """Engine T + z3: the real `main.py run` under every rule set of progs.taint_configs(); every reported flow must start at a
+    statement matching a source rule in scope, end at one matching a sink rule in scope, and the designated argument must depend
+    on the source value under vlib.flowdep's reading (z3 decides each dependence as Horn entailment)."""
+    from concurrent.futures import ThreadPoolExecutor
+    from vlib import flowdep, progs, tbatch
+    from vlib.checks import tcommon
+    r.encoded.append(common.src_ref("src/lian/taint/taint_analysis.py", "TaintAnalysis.run / find_sources / find_sinks / find_flows "
+                                    "(executed concretely through main.py run)"))
+    r.assumptions += [
+        "program leg: a reported flow (s, k) is justified iff s matches a source rule and k a sink rule (operation, callee name "
+        "-- syntactic or through an alias the Horn system derives --, language, unit name, line) and z3 answers unsat for "
+        "Horn(program) /\\ T(target of s) /\\ not T(designated argument of k); the Horn system is the coarsest reading accepted: "
+        "flow-insensitive, context-insensitive, object-granular (one cell per object/container), user variables merged by name, "
+        "calls additionally opaque (result depends on every argument and the receiver)",
+        "rule sets: " + ", ".join(progs.taint_configs()),
+        "'adding rules never removes flows' is checked between `base` and each extended rule set, flows identified by (source line, sink line)",
+    ]
+    base_programs = progs.family_taint_justified()
+    cfgs = progs.taint_configs()
+    todo = {name: [p for p in base_programs if name not in SUBSET or p["name"] in SUBSET[name]] for name in cfgs}
+    with ThreadPoolExecutor(5) as ex:
+        results = dict(zip(todo, ex.map(lambda n: run_config(n, todo[n]), todo)))
+    reported = {}
+    queries = 0
+    for name, (P, info) in results.items():
+        rules, relation = cfgs[name]
+        ob = f"program leg: reported flows are justified under rule set `{name}`"
+        if info["rc"] != 0:
+            r.harness_error(f"lian run failed under rule set {name} (rc={info['rc']}): {info['log_tail'][-300:]}")
+            continue
+        bad, n_flows, skipped = 0, 0, []
+        reported[name] = {}
+        for p in P:
+            fl = flows_of(p)
+            reported[name][p["name"]] = lines_of(p, fl)
+            n_flows += len(fl)
+            try:
+                probs, d = problems_of(p, rules)
+            except flowdep.Unsupported as e:
+                skipped.append(f"{p['name']}: {e}")
+                continue
+            queries += d.queries
+            r.counters["queries"] += d.queries
+            r.counters["solver_s"] += d.solver_s
+            for kind, flow, text in probs:
+                bad += 1
+                r.report(ob, dict(cex=dict(kind="flow", config=name, prog=p["name"], flow=list(flow), problem=kind), slice=None),
+                         f"flow:{name}:{kind}:{p['name']}:{p['hash']}",
+                         f"rule set `{name}`, program {p['name']}: reported flow {flow}: {text}\n{p['src']}")
+            if relation == "empty" and fl and not probs:
+                bad += 1
+                r.report(ob, dict(cex=dict(kind="flow", config=name, prog=p["name"], flow=[], problem="not-empty"), slice=None),
+                         f"flow:{name}:not-empty:{p['name']}:{p['hash']}",
+                         f"rule set `{name}` has no applicable source or sink rule, yet flows are reported for {p['name']}: {sorted(fl)}")
+        r.add_obligation(name=ob, engine="T+z3", status="held" if bad == 0 else "violated", programs=len(P), flows_reported=n_flows,
+                         not_judged=skipped, rules=[{k: v for k, v in x.items()} for x in rules])
+        r.counters["programs"] += len(P)
+    for name, (rules, relation) in cfgs.items():
+        if relation != "superset" or name not in reported or "base" not in reported:
+            continue
+        ob = f"program leg: every flow of `base` is still reported under `{name}`"
+        bad = 0
+        for pn, fl in reported["base"].items():
+            lost = fl - reported[name].get(pn, set())
+            if lost:
+                bad += 1
+                p = next(x for x in base_programs if x["name"] == pn)
+                r.report(ob, dict(cex=dict(kind="lost", config=name, prog=pn, lost=sorted(lost)), slice=None),
+                         f"flow-lost:{name}:{pn}", f"adding rules ({name}) removed the flow(s) (source line, sink line) {sorted(lost)} of {pn}\n{p['src']}")
+        r.add_obligation(name=ob, engine="T", status="held" if bad == 0 else "violated", programs=len(reported["base"]))
+    r.extra["flows_reported_by_rule_set"] = {n: sum(len(v) for v in d.values()) for n, d in reported.items()}
+    # oracle sanity, solver-decided: for all inputs, what dynamically arrives at a sink argument is a dependence of the reading
+    P = results["base"][0] if "base" in results else []
+    ok = []
+    for p in P:
+        try:
+            d = flowdep.decider_for(p)
+        except flowdep.Unsupported:
+            continue
+        by = d.h.u.by_id
+        srcs = [x for x in by.values() if x["operation"] == "call_stmt" and d.may_be(x, "source")]
+        snks = [x for x in by.values() if x["operation"] == "call_stmt" and d.may_be(x, "sink")]
+        p["dep"] = [[s_["stmt_id"], k["stmt_id"], i] for s_ in srcs for k in snks for i, a in enumerate(flowdep.r_pos(k))
+                    if d.depends(s_, k, a)]
+        r.counters["queries"] += d.queries
+        ok.append(p)
+    if ok:
+        path = tbatch.save_batch({"programs": ok})
+        try:
+            side = common.Run("C11", tier, "model_checking")
+            side.known = []
+            b = xrun.Batch(side)
+            b.add("oracle sanity: for all inputs, a source value arriving at a sink argument is a dependence of the reading", tcommon.M,
+                  "check_dep_oracle", slices=[dict(batch=path, range=[lo, min(lo + 6, len(ok))], skip=[]) for lo in range(0, len(ok), 6)],
+                  pct=300, ppt=30, bounds={"inputs": "unbounded ints a, b; bool c"})
+            b.execute()
+            r.obligations += side.obligations
+            r.harness_errors += side.harness_errors
+            for v in side.violations:
+                r.harness_error("the dependence oracle is not an over-approximation: " + v["what"][:300])
+        finally:
+            os.unlink(path)
+
+
 def replay(rec):
     cex = rec["cex"]
+    if isinstance(cex.get("cex"), dict) and cex["cex"].get("kind") in ("flow", "lost"):
+        from vlib import progs
+        c = cex["cex"]
+        prog = [p for p in progs.family_taint_justified() if p["name"] == c["prog"]]
+        if not prog:
+            return False, f"program {c['prog']} is no longer in the family"
+        rules = progs.taint_configs()[c["config"]][0]
+        P, info = run_config(c["config"], prog)
+        if c["kind"] == "lost":
+            B, _ = run_config("base", prog)
+            lost = lines_of(B[0], flows_of(B[0])) - lines_of(P[0], flows_of(P[0]))
+            return bool(lost), {"lost": sorted(lost)}
+        if c["problem"] == "not-empty":
+            return bool(flows_of(P[0])), {"flows": sorted(flows_of(P[0]))}
+        probs, _ = problems_of(P[0], rules)
+        same = [t for k, f, t in probs if k == c["problem"]]
+        return bool(same), {"problems": same, "flows": sorted(flows_of(P[0]))}
     func = "check_sink_positions" if "sink" in rec["obligation"] else "check_propagation"
     out = xrun.replay_native(tc.M, func, cex.get("slice", {}), cex["cex"])
     return bool(out.get("violated")), out
